@@ -11,13 +11,13 @@ import (
 )
 
 type H struct {
-	Values   map[string]uint64
-	Params   map[string]int
-	seen     map[string]int
-	Failed   []string
-	Tags     []string
-	Observed map[string]string
-	obsSeen  map[string]int
+	Values       map[string]uint64
+	Params       map[string]int
+	seen         map[string]int
+	Failed       []string
+	Tags         []string
+	Observed     map[string]string
+	obsSeen      map[string]int
 	AssumeFailed bool
 	AllocLimit   int
 }
@@ -64,6 +64,12 @@ func (h *H) U16(name string) uint16 { return uint16(h.Values[h.uniq(name)]) }
 func (h *H) U32(name string) uint32 { return uint32(h.Values[h.uniq(name)]) }
 func (h *H) U64(name string) uint64 { return h.Values[h.uniq(name)] }
 
+// Concrete reports whether b is a concrete value on this path (natively: always).
+// Reference writers use it to escape fixed special text while leaving symbolic bytes
+// to an assumption; for bytes that satisfy the assumption the escaping is the
+// identity, so the engine and the native replay build the same document.
+func (h *H) Concrete(b byte) bool { return true }
+
 // Bytes returns n fresh symbolic bytes.
 func (h *H) Bytes(name string, n int) []byte {
 	b := make([]byte, n)
@@ -88,7 +94,7 @@ func (h *H) Assert(id string, c bool) {
 	}
 }
 
-func (h *H) Fail(id string)          { h.Failed = append(h.Failed, id) }
+func (h *H) Fail(id string) { h.Failed = append(h.Failed, id) }
 func (h *H) Tag(t string) {
 	for _, x := range h.Tags {
 		if x == t {
@@ -97,8 +103,8 @@ func (h *H) Tag(t string) {
 	}
 	h.Tags = append(h.Tags, t)
 }
-func (h *H) Reach(id string)         {}
-func (h *H) SetAllocLimit(n int)     { h.AllocLimit = n }
+func (h *H) Reach(id string)     {}
+func (h *H) SetAllocLimit(n int) { h.AllocLimit = n }
 
 // Go runs the functions concurrently (natively: one goroutine each, repeated a few
 // times so that the race detector of the race-enabled replay binary sees them
